@@ -40,7 +40,7 @@ def _split_cases(draw, tier):
                         affine_range="maybe", normalize="maybe", long=True))
     pdim = len(d["degree"])
     return {"defn": d, "dir": draw(st.integers(0, pdim - 1)),
-            "where": draw(st.one_of(gen.param_desc(), st.just(["start"]), st.just(["end"]))),
+            "where": draw(st.one_of(gen.param_desc(), gen.param_desc(), st.just(["start"]), st.just(["end"]), st.just(["zero", 0, 0]))),
             "read": draw(st.booleans()), "binsearch": draw(st.integers(0, 3)) == 0}
 
 
@@ -191,6 +191,12 @@ def check_decompose(case, ctx):
                 ctx.check(ps[k] == d["degree"][k] + 1 and len(set(pk[k])) == 2, "not-bezier",
                           "piece %d is not a Bezier piece in direction %d: size %d, knots %r" % (i, k, ps[k], pk[k]))
         _piece_matches(ctx, R, pc, box, "piece-differs", "decompose(%s) piece %d on %r" % (dirs, i, [[float(a), float(b)] for a, b in box]))
+    ctx.check(all(pc is not obj for pc in pieces), "piece-is-input", "decompose(%s) returned the input object itself as a piece" % dirs)
+    if pieces and pdim == 2:
+        # the pieces are the caller's (also when there is only one): moving the control points of one of them does not touch the input
+        pc0 = pieces[0]
+        pc0.ctrlpts = [[c + 1.0 for c in q] for q in pc0.ctrlpts]
+        ctx.check(build.snapshot(obj) == before, "piece-edit-changed-input", "moving the control points of a piece returned by decompose_surface(%s) changed the input surface" % dirs)
     # the pieces are the caller's: refining one of them does not touch the input (also when the input was one segment already)
     if pieces and pdim == 1:
         pc0 = pieces[0]
